@@ -136,7 +136,7 @@ func builderCase(run *ev.Run, i int) {
 	if r.IntN(2) == 0 {
 		enc = sharedAuthorizer().Provider.Encoder()
 	}
-	exp := &expect{Case: caseIdx, Front: "builder", Who: fn, RedirectURI: uri, Want: string(mode), AllowExtra: map[string]bool{}}
+	exp := &expect{Case: caseIdx, Front: "builder", Who: fn, RedirectURI: uri, Want: string(mode), AllowExtra: map[string]bool{}, Tag: "builder:" + fn, TypeDefault: typeDefault(rt)}
 	input := map[string]any{"function": fn, "redirect_uri": uri, "response_type": string(rt), "response_mode": string(mode), "uri_shape": shape.Name}
 	exp.Input = input
 	rec := mon.NewRecorder()
@@ -188,6 +188,11 @@ func builderCase(run *ev.Run, i int) {
 			input["response"] = map[string]any{"error": code, "error_description": desc, "state": state, "session_state": ss}
 		}
 		if fn == "AuthResponseURL" {
+			if mode == oidc.ResponseModeFormPost {
+				// the function builds URLs only ("sets it as query or fragment values"): its callers send a form_post
+				// response through AuthResponseFormPost; which part of the URL it picks here is not judged
+				exp.Want = ""
+			}
 			var out string
 			pi = mon.Catch(func() { out, callErr = op.AuthResponseURL(uri, rt, mode, response, enc) })
 			if pi == nil && callErr == nil {
@@ -294,6 +299,7 @@ func builderCase(run *ev.Run, i int) {
 	}
 	if callErr != nil {
 		run.Count("builder_refused", fn+": "+trunc(callErr.Error(), 60))
+		exp.Returned = true
 	}
 	d := decodeDelivery(rec.Status, rec.Location(), rec.Body.String(), exp.Want)
 	raised := judge(run, exp, d, rec.Body.String())
@@ -304,6 +310,14 @@ func builderCase(run *ev.Run, i int) {
 			sampleOK(run, "builder/"+fn+"/"+d.Channel, exp, d, rec.Body.String())
 		}
 	}
+}
+
+// typeDefault: the response mode of a response type when the client asks for none (OAuth 2.0 Multiple Response Types 2.1 / 5)
+func typeDefault(rt oidc.ResponseType) string {
+	if rt == oidc.ResponseTypeCode {
+		return "query"
+	}
+	return "fragment"
 }
 
 func reportPanic(run *ev.Run, exp *expect, pi *mon.PanicInfo) {
